@@ -77,3 +77,56 @@ func debugExtents(args []string) {
 }
 
 var xDebug bool
+
+func debugEffects(args []string) {
+	repo := "/repo"
+	if v := os.Getenv("SMGO_REPO"); v != "" {
+		repo = v
+	}
+	p, err := LoadRepo(repo, "386")
+	if err != nil {
+		fmt.Println(err)
+		os.Exit(2)
+	}
+	e := NewEffects(p, map[string]map[int]bool{})
+	e.Run()
+	for _, n := range args {
+		fn := p.Func(n)
+		if fn == nil {
+			fmt.Println("no such function", n)
+			continue
+		}
+		s := e.sum[fn]
+		fmt.Printf("%s writesParam=%v retains=%v retAlias=%v\n", n, s.writesParam, s.retains, s.retAlias)
+		for i, sites := range s.paramSites {
+			for _, st := range sites {
+				fmt.Printf("   param %d: %s\n", i, siteChain(p, st))
+			}
+		}
+	}
+}
+
+func debugRetGlobals(args []string) {
+	repo := "/repo"
+	if v := os.Getenv("SMGO_REPO"); v != "" {
+		repo = v
+	}
+	p, err := LoadRepo(repo, "amd64")
+	if err != nil {
+		fmt.Println(err)
+		os.Exit(2)
+	}
+	e := NewEffects(p, map[string]map[int]bool{})
+	e.Run()
+	for _, fn := range p.RepoFuncs() {
+		s := e.sum[fn]
+		if s == nil {
+			continue
+		}
+		for k, g := range s.retGlobal {
+			if g != nil {
+				fmt.Printf("%s result#%d aliases %s\n", p.FuncName(fn), k, g.Name())
+			}
+		}
+	}
+}
